@@ -32,6 +32,19 @@ class NotRecorded(NonMemoizedException):
     pass
 
 
+class Inner(Exception):
+    """an unrelated top-level class with the bare name of Outer.Inner"""
+
+
+class Outer:
+    class Inner(Exception):
+        pass
+
+    class Deep:
+        class Err(Exception):
+            pass
+
+
 def make_local_error(msg):
     class LocalErr(Exception):
         pass
